@@ -5,7 +5,7 @@ open PikaVerif
 
 /-- Program counters at which the thread holds the event's internal spinlock. -/
 def holds : Pc → Bool
-  | .wLocked _ | .enq _ | .relk _ _ | .wPass _ | .sLocked _ | .sRel _ => true
+  | .wLocked _ | .wMustEnq _ | .enq _ | .relk _ _ | .wPass _ | .sLocked _ | .sRel _ => true
   | _ => false
 
 /-- Program counters at which the thread's entry is linked in the cv queue. -/
@@ -29,7 +29,7 @@ def isCall : Op → Bool
 
 /-- Which operation a program counter belongs to. -/
 def pcOpOk : Pc → Op → Bool
-  | .wWant c, o | .wLockW c, o | .wLocked c, o | .enq c, o | .unl c _, o | .susp c _, o
+  | .wWant c, o | .wLockW c, o | .wLocked c, o | .wMustEnq c, o | .enq c, o | .unl c _, o | .susp c _, o
   | .wokeNL c _, o | .relk c _, o | .wPass c, o => ctxOk c o .wait
   | .sWant c, o | .sLockW c, o | .sLocked c, o | .sRel c, o => ctxOk c o .set
   | .rWant, o => decide (o = .reset)
@@ -80,7 +80,7 @@ theorem step_inv_ret (s s' : St) (t : Nat) (r : Nat) (hi : Inv s) (h : step s (.
 theorem step_inv_slAcq (s s' : St) (t : Nat) (hi : Inv s) (h : step s (.slAcq t) = some s') : Inv s' := by once_step
 theorem step_inv_slRel (s s' : St) (t : Nat) (hi : Inv s) (h : step s (.slRel t) = some s') : Inv s' := by once_step
 theorem step_inv_evLoad (s s' : St) (t : Nat) (v : Bool) (hi : Inv s) (h : step s (.evLoad t v) = some s') : Inv s' := by once_step
-theorem step_inv_evPass (s s' : St) (t : Nat) (v : Bool) (hi : Inv s) (h : step s (.evPass t v) = some s') : Inv s' := by once_step
+theorem step_inv_evLoadL (s s' : St) (t : Nat) (v : Bool) (hi : Inv s) (h : step s (.evLoadL t v) = some s') : Inv s' := by once_step
 theorem step_inv_stored (s s' : St) (t : Nat) (v : Bool) (hi : Inv s) (h : step s (.stored t v) = some s') : Inv s' := by once_step
 theorem step_inv_cvEnq (s s' : St) (t z : Nat) (hi : Inv s) (h : step s (.cvEnq t z) = some s') : Inv s' := by once_step
 theorem step_inv_cvWoke (s s' : St) (t : Nat) (a : Bool) (hi : Inv s) (h : step s (.cvWoke t a) = some s') : Inv s' := by once_step
@@ -190,7 +190,7 @@ theorem step_inv (s s' : St) (e : Ev) (hi : Inv s) (h : step s e = some s') : In
   | slAcq t => exact step_inv_slAcq s s' t hi h
   | slRel t => exact step_inv_slRel s s' t hi h
   | evLoad t v => exact step_inv_evLoad s s' t v hi h
-  | evPass t v => exact step_inv_evPass s s' t v hi h
+  | evLoadL t v => exact step_inv_evLoadL s s' t v hi h
   | stored t v => exact step_inv_stored s s' t v hi h
   | cvEnq t z => exact step_inv_cvEnq s s' t z hi h
   | notifyAll t l => exact step_inv_notifyAll s s' t l hi h
